@@ -28,7 +28,7 @@ META = {
             "window, and after a fence wake-up). Tied to the code by scripts that place the handlers at every such point around real "
             "caller threads, and by real-engine runs with wall-clock bounds.",
     "design_ref": "DESIGN.md §7 C04",
-    "note": "partial: 'no later than its timeout plus a bounded slack' is measured on the real engine (timeout + 400 ms; cancellation "
+    "note": "partial: 'no later than its timeout plus a bounded slack' is measured on the real engine (timeout + 1 s; cancellation "
             "polled every 100 ms), not proved; connectSyncCancellable restarts a fresh connect every 100 ms, which the model covers as "
             "a sequence of independent connectSync calls. Trusted: Coq kernel; extraction + OCaml driver; harness/c04_impl.cpp "
             "(scripted engine harness/recording_engine.hpp; park detection through syncMutex).",
@@ -231,7 +231,7 @@ def run(ctx):
                            "has released the mutex and is inside engine->close, after its return), timeouts (80 ms) and long waits, the "
                            "teardown fence, the engine refusing connects; compared: every caller's result, the global callback log, the close "
                            "commands received by the engine, leftover pendingConnects entries. Real engine: accepting / refused / unresolvable / "
-                           "black-holed targets, mixed concurrent callers, stop while parked, cancellation; return time <= timeout + 400 ms. "
+                           "black-holed targets, mixed concurrent callers, stop while parked, cancellation; return time <= timeout + 1 s. "
                            "Scripts skipped because a short-timeout caller fired before its scripted point: %d." % skipped)
             cov["samples"] = lines[4:6] + ["real scenarios: %s" % sorted(kinds.items())]
     rc = v.finish()
